@@ -43,13 +43,15 @@ Section Oracles.
     forallb (plain_opt wa) opts = true ->
     length ops = assoc_nat w WRAPPER_OPERANDS ->
     operand_word (hd cmd ops) = true -> mem_str (hd cmd ops) wa = false ->
+    (negb (str_eqb w $"time") && is_assignment cmd) = false ->
     ladder c (w :: opts ++ ops ++ cmd :: args) = ladder c (cmd :: args).
   Proof.
-    intros wa Ha Hw Hm Hv Ho Hl Hop Hwa.
+    intros wa Ha Hw Hm Hv Ho Hl Hop Hwa Hna.
     apply (wrapper_transparent mcmd handler mredir astr c w (opts ++ ops ++ cmd :: args) (cmd :: args) Ha Hw Hm).
     - rewrite nth0_hd. rewrite app_assoc, hd_app_cons, <- app_assoc. exact Hv.
     - apply skip_args_stop_at_command; assumption.
     - discriminate.
+    - exact Hna.
   Qed.
 
   (* the lookup shortcut needs -v / -V as the FIRST word after `command`: an operand-shaped command name never is *)
@@ -65,9 +67,10 @@ Section Oracles.
     is_assignment w = false -> mem_str w WRAPPER_COMMANDS = true -> assoc_nat w WRAPPER_OPERANDS = 0%nat ->
     mcmd c (w :: cmd :: args) = None ->
     operand_word cmd = true -> mem_str cmd (assoc_flags w WRAPPER_FLAGS_WITH_ARG) = false ->
+    (negb (str_eqb w $"time") && is_assignment cmd) = false ->
     ladder c (w :: cmd :: args) = ladder c (cmd :: args).
   Proof.
-    intros Ha Hw H0 Hm Hop Hwa.
+    intros Ha Hw H0 Hm Hop Hwa Hna.
     apply (wrapper_args_irrelevant c w [] [] cmd args); try assumption; try reflexivity.
     - cbn [app hd]. rewrite (operand_not_lookup_flag cmd Hop). apply andb_false_r.
     - symmetry. exact H0.
